@@ -1,6 +1,7 @@
 import GoawkModel.Basic
 import GoawkModel.C16
 import GoawkModel.C16Locals
+import GoawkModel.C16Stack
 /-! Line-protocol handler for property C16 (and, through `GoawkModel.Drv.C19`, C19).
 
 request : `resolve <order> S <name>* B <name>* (F <name> P <param>* E <event>*)* M <event>*`
@@ -13,7 +14,13 @@ answer  : `ok G <n>:<t>:<idx>* (F <fname> <n>:<t>:<idx>*)*`   (functions by name
 request : `locals <fuel> <nGlobals> (F <nArr> <stmt>*)* (P <stmt>*)*`   (`GoawkModel.C16.Locals`: functions by number, then the top-level
   pieces in execution order);  `<stmt>` : `f:<slot>:<key>` | `c:<fn>` | `l:<n|r|x|t|T|e>` (normal, return, exit, next, nextfile, error)
 answer  : `ok <entries> <outs> <table>` — entries: per function entry the sizes of its local arrays (`,`-joined, `-` = none), `;`-joined;
-  outs: one letter per piece; table: sizes of the maps left in the table, `,`-joined -/
+  outs: one letter per piece; table: sizes of the maps left in the table, `,`-joined
+
+request : `frames <cap0> <ev>*`   (`GoawkModel.C16.Stack`); `<ev>` : `p<v>` push | `o` pop | `w<i>:<v>` write | `r<i>` read | `e<k>` enter |
+  `l<v>` leave
+answer  : `ok <obs> ref=<same|differs|invalid> policies=<same|differs> offset=<same|differs> reslice=<same|differs>` — obs: what the
+  code as it is (saved slices) observes on a stack of `cap0` cells that doubles, `,`-joined (`-` = nothing); ref: against the
+  reference semantics; policies: against a 1-cell stack growing by one and a 7-cell stack; offset / reslice: the other two modes -/
 namespace GoawkModel.Drv.C16
 open GoawkModel GoawkModel.C16
 
@@ -148,8 +155,48 @@ def handle (fuel nGlob : Nat) (ws : List String) : String :=
 
 end LocalsDrv
 
+namespace StackDrv
+open GoawkModel.C16.Stack
+
+def num (r : List Char) : Option Nat := (String.ofList r).toNat?
+
+def parseEv (w : String) : Option Ev :=
+  match w.toList with
+  | ['o'] => some .pop
+  | 'p' :: r => (num r).map Ev.push
+  | 'r' :: r => (num r).map Ev.read
+  | 'e' :: r => (num r).map Ev.enter
+  | 'l' :: r => (num r).map Ev.leave
+  | 'w' :: r =>
+    match (String.ofList r).splitOn ":" with
+    | [i, v] => do some (.write (← i.toNat?) (← v.toNat?))
+    | _ => none
+  | _ => none
+
+def showObs (l : List Nat) : String := if l.isEmpty then "-" else String.intercalate "," (l.map toString)
+
+def same (b : Bool) : String := if b then "same" else "differs"
+
+def handle (cap0 : Nat) (ws : List String) : String :=
+  match ws.mapM parseEv with
+  | none => "bad-frames"
+  | some es =>
+    let dbl : Nat → Nat := fun c => 2 * c + 1
+    let o := run .savedSlice dbl (init cap0) es
+    let rf := match refRun refInit es with
+      | none => "invalid"
+      | some r => same (r == o)
+    let pol := o == run .savedSlice (fun c => c + 1) (init 1) es && o == run .savedSlice dbl (init 7) es
+    s!"ok {showObs o} ref={rf} policies={same pol} offset={same (o == run .offset dbl (init cap0) es)} reslice={same (o == run .reslice dbl (init cap0) es)}"
+
+end StackDrv
+
 def handle (args : List String) : String :=
   match args with
+  | "frames" :: cap :: rest =>
+    match cap.toNat? with
+    | some c => StackDrv.handle c rest
+    | none => "bad-request"
   | "locals" :: fuel :: ng :: rest =>
     match fuel.toNat?, ng.toNat? with
     | some f, some n => LocalsDrv.handle f n rest
